@@ -287,6 +287,34 @@ def textChanged [DecidableEq σ] (existing : Option σ) (new : σ) : Bool :=
   | none => true
   | some old => decide (old ≠ new)
 
+/-- the same test as the code performs it: on DIGESTS of the two texts (`_compute_file_md5_digest`, md5).  The digest is
+    a parameter; the contract it is ASSUMED to satisfy is `DigestFaithful` (trusted base: md5 of the whole file). -/
+def textChangedBy [DecidableEq η] (digest : σ → η) (existing : Option σ) (new : σ) : Bool :=
+  match existing with
+  | none => true
+  | some old => decide (digest old ≠ digest new)
+
+/-- "equal digest ⇒ equal text": what `to_file` relies on when it decides not to rewrite the pickle -/
+def DigestFaithful (digest : σ → η) : Prop := ∀ a b, digest a = digest b → a = b
+
+/-- what `to_file(name, ('pkl', 'yml'))` leaves on disk: the text file and the pickle (= a pickled model) -/
+structure Disk (σ ρ : Type) where
+  text : Option σ
+  pickle : Option ρ
+
+/-- one `to_file` of a model whose text is `t`: the text file is always written; the pickle is re-created — from the
+    text just written (`fromText` = `_from_text`) — iff the text digest changed or there is no pickle yet -/
+def saveStep [DecidableEq η] (digest : σ → η) (fromText : σ → ρ) (d : Disk σ ρ) (t : σ) : Disk σ ρ :=
+  if textChangedBy digest d.text t || d.pickle.isNone then ⟨some t, some (fromText t)⟩ else ⟨some t, d.pickle⟩
+
+/-- a history of saves (the model is edited in between: each save has its own text) -/
+def saves [DecidableEq η] (digest : σ → η) (fromText : σ → ρ) (d : Disk σ ρ) (ts : List σ) : Disk σ ρ :=
+  ts.foldl (saveStep digest fromText) d
+
+/-- the pickle on disk is the model of the text on disk -/
+def Disk.Fresh (fromText : σ → ρ) (d : Disk σ ρ) : Prop :=
+  ∀ t, d.text = some t → d.pickle = some (fromText t)
+
 /-! ### the engine view of a cell map -/
 
 /-- numbering of the addresses (topological) and interpretation of python code -/
